@@ -25,6 +25,9 @@ BENIGN = {"imb_errno", "cpuid_1_0", "cpuid_7_0", "cpuid_7_1", "counter.0", "imb_
 
 
 # ----------------------------------------------------------------------------- generation
+SUITE_OF = {}
+
+
 def make_items(rng):
     """valid KAT items whose outputs are fully defined + a few invalid ones; returns (lines, valid_idx, invalid_idx)"""
     base = []
@@ -46,11 +49,25 @@ def make_items(rng):
             d["inplace"] = "1"
         base.append(d)
     lines, valid, invalid = [], [], []
+    SUITE_OF.clear()
     for i, d in enumerate(base):
         d = dict(d)
         d["id"] = str(1000 + i)
         lines.append(C14.fmt_item(d))
         valid.append(i)
+        SUITE_OF[i] = (d["cipher"], d["hash"])
+    # one more item per algorithm family from the template list of C04 (AEADs, chained suites, wireless algorithms, ...)
+    try:
+        from . import c04
+        trng = Rng(20261002)
+        for tn, tb in c04.templates(c04.consts()):
+            d = tb(trng, 300)
+            i = len(lines)
+            lines.append(c04.item_line(5000 + i, d))
+            valid.append(i)
+            SUITE_OF[i] = ("t:" + tn, "")
+    except Exception as ex:      # the corpus above still stands
+        log("C04 templates not available for the C17 corpus: %r" % (ex,))
     simple = [d for d in base if d["cipher"] in ("1", "2", "12") and d["hash"] == "8"]
     for k, (tok, val) in enumerate([("null", "src"), ("null", "dst"), ("clen", "0"), ("null", "iv"), ("cipher", "99"), ("dir", "9")] * 3):
         d = dict(rng.choice(simple))
@@ -252,6 +269,26 @@ def cases(rng, tier, valid, invalid):
         hs = [[o for o in h if o != "I"] for h in hs]
         merged = [(m, o) for m in range(k) for o in hs[m]]
         out.append(("th%d" % ti, mg, hs, merged, "threads", rng.next() % 100000))
+    # (c) the same algorithm on every thread at the same time: all threads run the same sequence of suites, one suite
+    # after the other, many jobs each - a scratch buffer of an algorithm that is not reached through the manager or the
+    # stack is then used by several threads at once
+    by_suite = {}
+    for i in valid:
+        by_suite.setdefault(SUITE_OF.get(i), []).append(i)
+    suites = sorted(k for k in by_suite if k is not None)
+    per_case = 12
+    reps = 25 if tier == "quick" else 120
+    for ci in range(0, len(suites), per_case):
+        chunk = suites[ci:ci + per_case]
+        k = 8
+        mg = [VARIANTS[(ci + j) % len(VARIANTS)] for j in range(k)]
+        seq = []
+        for su in chunk:
+            it = by_suite[su][rng.below(len(by_suite[su]))]
+            seq += ["J %d" % it] * reps + ["F"] * 18
+        hs = [list(seq) for _ in range(k)]
+        merged = [(m, o) for m in range(k) for o in hs[m]]
+        out.append(("same%d" % (ci // per_case), mg, hs, merged, "threads", rng.next() % 100000))
     return out
 
 
